@@ -649,6 +649,23 @@ func timeoutReuseProbes(c *Ctx) {
 				c.Fail("tmo-reuse-extends", desc, fmt.Sprint(vals), "the request must carry exactly one timeout, no longer than this call's deadline")
 			}
 		}
+		// (1a) ... and a call WITHOUT a deadline made with a Request value that carried one before
+		// sends no timeout at all: without a client deadline the handler's context has none
+		{
+			cap := &captureClient{}
+			cl := connect.NewClient[emptypb.Empty, emptypb.Empty](cap, "http://h/s/m", protoOptsPB(proto)...)
+			req := connect.NewRequest(&emptypb.Empty{})
+			ctx, cancel := context.WithTimeout(context.Background(), time.Hour)
+			_, _ = cl.CallUnary(ctx, req)
+			cancel()
+			cap.header = nil
+			_, _ = cl.CallUnary(context.Background(), req)
+			vals, _, _ := timeoutMillis(cap.header, grpc)
+			c.Count("tmo-reuse")
+			if len(vals) != 0 {
+				c.Fail("tmo-reuse-stale", fmt.Sprintf("%s unary call without a deadline, made with a Request value used before under a 1h deadline", proto), fmt.Sprint(vals), "a client without a deadline must send no timeout: the handler's context would get a deadline the caller never set")
+			}
+		}
 		// (1b) the Request value went through a unary call first and is then used for a
 		// server-streaming call with a tighter deadline: the timeout a handler honours (the first
 		// value of the header) is this call's
